@@ -14,6 +14,8 @@ func init() {
 			ruleNoSort(c)
 			ruleSameDescriptor(c)
 			ruleEntryPair(c)
+			// object keys are the descriptor names
+			ruleFieldName(c)
 			ruleLookupStateless(c, []string{"plenccodec.Descriptor.readAsStruct"})
 		},
 	})
